@@ -971,6 +971,17 @@ fn lower_choices(probe: &Config) -> Vec<(&'static str, Tree)> {
         }
         locd.insert(cs.join("/"), file(b"lowLocalized"));
     }
+    // the localized form of the DIRECTORY d/e (not of a file in it) holds a file, while the
+    // unlocalized d/e exists nowhere in this layer
+    if let Some(p) = probe.localize("d/e") {
+        let cs = comps(&p);
+        if cs.join("/") != "d/e" {
+            for i in 1..=cs.len() {
+                locd.entry(cs[..i].join("/")).or_insert(Node::Dir);
+            }
+            locd.insert(format!("{}/inner.txt", cs.join("/")), file(b"in the localized directory"));
+        }
+    }
     // ... and the locations the OTHER languages of this game would address (a look-up must
     // never fall back to them)
     for lang in ref_loc::LANGS {
